@@ -16,6 +16,7 @@ import (
 	"verif/cfg"
 	"verif/core"
 	"verif/oracle"
+	"verif/sg"
 	"verif/wl"
 )
 
@@ -647,7 +648,9 @@ func runC10(c *core.Ctx) {
 	n2 := c.PerShard(c.N(260000, 9000000))
 	for i := 0; i < n2; i++ {
 		var src []byte
-		switch i % 5 {
+		switch i % 6 {
+		case 5:
+			src = []byte(sg.Document(r, 3, 5, 4, nil).Markdown)
 		case 0, 1:
 			src = wl.SoupFrom(r, c10Tokens, 1+r.Intn(12))
 		case 2:
